@@ -48,6 +48,7 @@ type Contract struct {
 	TrustedEns []*Clause // assumed by callers, not checked in the body (seams; listed in the evidence)
 	GhostEntry []*Clause
 	GhostExit  []*Clause
+	EnsuresPre []*Clause // checked at exits before the ghost-exit assignments
 }
 
 type GhostVar struct {
@@ -248,6 +249,8 @@ func (cs *Contracts) loadFile(path string) error {
 			cur.Requires = append(cur.Requires, cl)
 		case "ensures":
 			cur.Ensures = append(cur.Ensures, cl)
+		case "ensures-before-exit":
+			cur.EnsuresPre = append(cur.EnsuresPre, cl)
 		case "trusted-ensures":
 			cur.TrustedEns = append(cur.TrustedEns, cl)
 		case "ghost-entry", "ghost-exit":
@@ -368,11 +371,12 @@ func (cs *Contracts) ParseAll() error {
 		all = append(all, c.TrustedEns...)
 		all = append(all, c.GhostEntry...)
 		all = append(all, c.GhostExit...)
+		all = append(all, c.EnsuresPre...)
 		for _, l := range c.Loops {
 			all = append(all, l...)
 		}
 		for _, cl := range all {
-			if cl.Kind == "decreases" || cl.Kind == "invariant" || cl.Kind == "step" || cl.Kind == "exit" || cl.Kind == "requires" || cl.Kind == "ensures" || cl.Kind == "ensures-on-panic" || cl.Kind == "assert" || cl.Kind == "closure-invariant" || cl.Kind == "free-requires" || cl.Kind == "trusted-ensures" || cl.Kind == "ghost-entry" || cl.Kind == "ghost-exit" {
+			if cl.Kind == "decreases" || cl.Kind == "invariant" || cl.Kind == "step" || cl.Kind == "exit" || cl.Kind == "requires" || cl.Kind == "ensures" || cl.Kind == "ensures-on-panic" || cl.Kind == "assert" || cl.Kind == "closure-invariant" || cl.Kind == "free-requires" || cl.Kind == "trusted-ensures" || cl.Kind == "ghost-entry" || cl.Kind == "ghost-exit" || cl.Kind == "ensures-before-exit" {
 				e, err := ParseExpr(cl.Text)
 				if err != nil {
 					return fmt.Errorf("%s: %v in %q", cl.Line, err, cl.Text)
